@@ -197,7 +197,10 @@ class MarkerExpression(SingleMarker):
                 rhs = normalize_name(rhs)
         if isinstance(rhs, str):
             try:
-                spec = Specifier(f"{self.op}{rhs}")
+                # on the reversed path rhs is the environment value, so the
+                # specifier must be built from the operator as written
+                op = get_reflect_op(self.op) if self.reversed else self.op
+                spec = Specifier(f"{op}{rhs}")
             except InvalidSpecifier:
                 pass
             else:
